@@ -825,6 +825,20 @@ func tStrSubstr(s, off, n *Term) *Term {
 			}
 		}
 	}
+	if as, ok := fixedAtoms(s); ok {
+		if o, ok := off.IntVal(); ok {
+			if l, ok := n.IntVal(); ok {
+				if o < 0 || o >= int64(len(as)) || l <= 0 {
+					return mkStr("")
+				}
+				e := o + l
+				if e > int64(len(as)) {
+					e = int64(len(as))
+				}
+				return atomsToTerm(as[o:e])
+			}
+		}
+	}
 	return newTerm("str.substr", SStr, s, off, n)
 }
 func tStrReplaceAll(s, a, b *Term) *Term {
